@@ -443,6 +443,9 @@ func fixedWrites() []writeDesc {
 		// unnamed mesh among several (331d6c1), empty last mesh, zero meshes
 		{Meshes: []meshDesc{{Name: "", Idx: []int{0, 1, 2}, Pos: tri(3)}, {Name: "b", Idx: []int{0, 1, 2}, Pos: tri(3)}}},
 		{Meshes: []meshDesc{{Name: "a", Idx: []int{0, 1, 2}, Pos: tri(3)}, {Name: "empty", Idx: []int{}, Pos: nil}}},
+		// unnamed mesh after a named one (must still start its own group), empty mesh in the middle (dropped by the reader)
+		{Meshes: []meshDesc{{Name: "a", Idx: []int{0, 1, 2}, Pos: tri(3)}, {Name: "", Idx: []int{2, 1, 0}, Pos: tri(3), Nrm: n3}, {Name: "c", Idx: []int{0, 2, 1}, Pos: tri(3), UV: u3}}},
+		{Meshes: []meshDesc{{Name: "a", Idx: []int{0, 1, 2}, Pos: tri(3)}, {Name: "e", Idx: []int{}, Pos: nil}, {Name: "c", Idx: []int{0, 2, 1}, Pos: tri(3)}}},
 		{Meshes: []meshDesc{}},
 		// material ranges: several, empty, repeated, nil material
 		{Mtl: "m.mtl", Meshes: []meshDesc{{Name: "a", Idx: []int{0, 1, 2, 2, 1, 3, 0, 3, 1}, Pos: tri(4),
